@@ -177,15 +177,24 @@ def run(ctx, n=None, module_gate_only=False):
                              # standard library): nothing of the tree is "inside --package"
                              [("json",)], [("email", "mime"), ("pkg",)], [("xml", "dom"), ("json",)]][idx]
         directed_nested = None
-        if not module_gate_only and 9 <= idx < 17:
+        if not module_gate_only and 9 <= idx < 23:
             # directed: search paths nested in each other, given in every order (a file belongs to the longest search
-            # path above it: that decides its module name), the module names observed through a real run
+            # path above it: that decides its module name), the module names observed through a real run; siblings
+            # whose names merely begin with a nested search path's name (src / srcx, lib / libx) belong to the outer
+            # one; a search path that is itself a tests package (its test files are test modules)
             leaf = lambda: {"files": ["__init__.py", "tests.py", "test_a.py"], "subs": []}  # noqa: E731
-            tree = {"files": ["tests.py"], "subs": [["src", {"files": ["tests.py"], "subs": [["pkg", leaf()], ["lib", {"files": [], "subs": [["pkg2", leaf()]]}]]}],
-                                                    ["other", {"files": ["tests.py"], "subs": []}]]}
+            tpkg = lambda: {"files": ["__init__.py", "test_x.py", "test_y.py", "helper.py"], "subs": []}  # noqa: E731
+            tree = {"files": ["tests.py"], "subs": [
+                ["src", {"files": ["tests.py"], "subs": [["pkg", {"files": ["__init__.py", "tests.py"], "subs": [["tests", tpkg()]]}],
+                                                         ["lib", {"files": [], "subs": [["pkg2", leaf()]]}],
+                                                         ["libx", {"files": ["tests.py"], "subs": []}]]}],
+                ["srcx", {"files": ["tests.py"], "subs": [["inner", leaf()]]}],
+                ["other", {"files": ["tests.py"], "subs": []}]]}
             directed_nested = [[(), ("src",)], [("src",), ()], [(), (), ("src",), ("src", "lib")], [("src", "lib"), (), ("src",)],
                                [("src",), ("src", "lib"), ()], [(), ("other",), ("src",)], [("src",), ("src",), ("src", "lib")],
-                               [(), ("src", "lib")]][idx - 9]
+                               [(), ("src", "lib")], [("src", "pkg", "tests")], [(), ("src", "pkg", "tests")],
+                               [("src", "pkg", "tests"), ("src",)], [("src", "lib"), ("src",)], [("srcx",), ("src",), ()],
+                               [("src", "pkg"), ("src", "pkg", "tests")]][idx - 9]
         d = os.path.join(ctx.tmp, "disc%05d" % idx)
         materialize(tree, d, rng if directed_pkgs is None and directed_nested is None else random_no_links())
         dirs = [p for p in all_dirs(tree)]
